@@ -18,7 +18,9 @@ EXPLANATION = (
     "a narrowing cast; from_field_type consumes field_length bytes for variable kinds and the type's own "
     "size for fixed kinds; the number→field lookup tables are self-consistent (arm n ↦ variant with "
     "discriminant n); value-partial enum parsers are not propagated with `?`; every data decoder iterates "
-    "records. Value-level agreement with RFC 3954 over all streams is not decided."
+    "records; no arithmetic, clamping or narrowing is applied to a decoded value on its way into the "
+    "FieldValue and each time kind takes its unit from the Duration constructor of that unit (R4.11). "
+    "Value-level agreement with RFC 3954 over all streams is not decided."
 )
 ASSUMPTIONS = ["nom primitives consume exactly their width and decode big-endian (nom contract)"]
 
